@@ -283,6 +283,37 @@ def r10(ctx, prog):
     ctx.floor(R, 2)
 
 
+def r11(ctx, prog):
+    R = ctx.rule("C09.R11", "the abandoned-page count follows every page that leaves the abandoned state: in mi_segment_reclaim each used page — whether it is reclaimed into "
+                            "the heap or turns out to be all free and is cleared — decrements segment->abandoned exactly once, and mi_segment_check_free decrements it "
+                            "before clearing a page; a stale count makes the owner re-abandon (used == abandoned) a segment that still has a page in its heap, "
+                            "which a second thread then adopts as well")
+    f = prog.fn("mi_segment_reclaim")
+    cfg = f.cfg
+    decs = [a for a, l, kind, opnd in f.field_updates("abandoned") if kind == "sub" and opnd == 1]
+    is_dec = lambda e: e in decs
+    used = [q for p_, q, e, pol in rl.edges_with_fact(f, lambda e, pol: isinstance(e, int) and pol and (rl.is_call(f, f.strip(e), "mi_slice_is_used") or f.mentions_field(e, "xblock_size") or f.mentions_field(e, "block_size")))]
+    outs = list(f.calls(("_mi_page_reclaim", "mi_segment_page_clear")))
+    if not used or len(outs) < 2:
+        ctx.broke("C09.R11: the used-slice test / the two outcomes of a used page in mi_segment_reclaim not found")
+    else:
+        ctx.check(R, len(decs) == 1, f.where(decs[0]) if decs else f.where(), "one decrement of segment->abandoned per used page", key="C09.R11:once")
+        for c in outs:
+            w = cfg.must_pass(used, [cfg.pt(c)], is_dec)
+            ctx.check(R, w is None, f.where(c), "%s of a used page is reached only after segment->abandoned--" % f.nodes[c]["callee"], key="C09.R11:%s" % f.nodes[c]["callee"], witness=w)
+    g = prog.fn("mi_segment_check_free")
+    decs2 = [a for a, l, kind, opnd in g.field_updates("abandoned") if kind == "sub" and opnd == 1]
+    clears = list(g.calls("mi_segment_page_clear"))
+    if not clears:
+        ctx.broke("C09.R11: mi_segment_check_free no longer clears free pages")
+    for c in clears:
+        # per iteration: from the all-free test's true edge
+        st = [q for p_, q, e, pol in rl.edges_with_fact(g, lambda e, pol: isinstance(e, int) and pol and (rl.is_call(g, g.strip(e), "mi_page_all_free") or g.mentions_field(e, "used")))]
+        w = g.cfg.must_pass(st, [g.cfg.pt(c)], lambda e: e in decs2) if st else [g.nodes[c]["ln"]]
+        ctx.check(R, w is None, g.where(c), "a free page of an abandoned segment is cleared only after segment->abandoned--", key="C09.R11:check_free", witness=w)
+    ctx.floor(R, 4)
+
+
 def run(ctx):
     ctx.explanation = ("Static decision of C09's code-shaped necessary conditions over every CFG path of the thread-exit, abandon, un-abandon and "
                        "reclaim functions: ordering (must-pass-through), never-after-publication, guards on adoption (atomic un-abandon result, "
@@ -291,7 +322,7 @@ def run(ctx):
     for c in (["REL"] if ctx.tier == "quick" else ["REL", "SEC", "DBG"]):
         prog = ctx.prog(c)
         n0 = len(ctx.instances)
-        r1(ctx, prog); r2(ctx, prog); r3(ctx, prog); r4(ctx, prog); r5(ctx, prog); r6(ctx, prog); r7(ctx, prog); r8(ctx, prog); r9(ctx, prog); r10(ctx, prog)
+        r1(ctx, prog); r2(ctx, prog); r3(ctx, prog); r4(ctx, prog); r5(ctx, prog); r6(ctx, prog); r7(ctx, prog); r8(ctx, prog); r9(ctx, prog); r10(ctx, prog); r11(ctx, prog)
         if c != "REL":
             for i in ctx.instances[n0:]:
                 i["site"] += " [%s]" % c
